@@ -15,12 +15,12 @@ _T3 = "run-time deal contracts on sidecar wrappers over a bounded-exhaustive dom
 LEVELS = {
     "C01": dict(category="other",
                 text="Mixed. PROVED unbounded (T1, loop invariants over an abstract Binner contract, any number of items/bins, opaque items): greedy and round-robin return exactly numbins bins holding every item exactly once. "
-                     "PROVED for all values at bounded shape (T2, the real search code on every path): complete greedy x 3 objectives (n<=4, k<=3; the shape n=4,k=3 only in the thorough tier), CKK (n<=4), DP x 3 objectives (n<=3), CBLDM (n<=4) return a non-missing result that is a partition into the requested number of bins. "
+                     "PROVED for all values at bounded shape (T2, the real search code on every path): complete greedy x 3 objectives (n<=4, k<=3; the shape n=4,k=3 only in the thorough tier), CKK (n<=4), DP x 5 objectives (n<=3), CBLDM (n<=4) return a non-missing result that is a partition into the requested number of bins. "
                      "multifit: PROVED unbounded (T1, any number of items, symbolic numbins, loop invariant of the bisection): every item exactly once and never more than numbins bins - modular over first_fit.online's contract, with ONE TRUSTED THEOREM (Coffman-Garey-Johnson: first-fit-decreasing with capacity >= max(2*sum/numbins, largest item) needs <= numbins bins) for the initial capacity; kk and multifit (2 iterations) also at n<=3 (T2, no theorem); complete greedy under all 16 switch combinations x 3 objectives at n<=4 in the thorough tier (5 combinations in quick). "
                      "BOUNDED STAND-IN only (T3): snp, rnp, ilp (its copies clause is T2 under C17), larger shapes. rnp with 6-8 bins is a listed known finding.",
                 technique=_T1 + " + " + _T2 + " + " + _T3),
     "C02": dict(category="other",
-                text="Optimality of branch-and-bound searches is not decided for unbounded inputs by anything within reach. PROVED for all integer values at bounded shape (T2): on every path of the real search, the returned objective value is <= that of every one of the k^n assignments, for complete greedy x {difference, min-max, max-min} (default switches, n<=4, k<=3; the shape n=4,k=3 only in the thorough tier), CKK (n<=4, k<=3), DP x 3 objectives (n<=3, k<=2); "
+                text="Optimality of branch-and-bound searches is not decided for unbounded inputs by anything within reach. PROVED for all integer values at bounded shape (T2): on every path of the real search, the returned objective value is <= that of every one of the k^n assignments, for complete greedy x {difference, min-max, max-min} (default switches, n<=4, k<=3; the shape n=4,k=3 only in the thorough tier), CKK (n<=4, k<=3), DP x 5 objectives incl. 2-smallest and 2-largest (n<=3, k<=2..3); "
                      "and the pruning bounds every search rests on are admissible for every numbins<=6, all sums, all remaining totals (T2, modular). "
                      "Everything beyond those shapes, the 16 switch combinations, k-largest/k-smallest objectives, snp, rnp, ilp: BOUNDED STAND-IN (T3) against an exhaustive optimum. rnp with 5 bins is a listed known finding.",
                 technique=_T2 + " + " + _T3),
